@@ -196,6 +196,30 @@ func init() {
 		if !(ln.eq(lo) || ln.eq(en)) {
 			return fmt.Sprintf("FAIL invented old=%s entry=%s new=%s", lo, en, ln)
 		}
+		// the winner is decided by last-writer-wins alone (C02, C04): a stored version that
+		// loses against the entry is replaced - in particular a deletion at T removes any
+		// version older than T whatever the cut-off - and one that does not lose stays. Only
+		// a stale marker for an absent key is refused; a default-timestamp capture of
+		// unchanged content keeps the stored version. (Entries flagged deleted with a value
+		// are never produced by Lightning Stream and are left to the weaker rule above.)
+		if !(edel && len(kv.Value) > 0) {
+			var want lc
+			switch {
+			case !lo.present:
+				if !(edel && kv.TimestampNano < u64(a[3])) {
+					want = en
+				}
+			case kv.TimestampNano == 0 && bytes.Equal(lo.val, kv.Value) && !(edel && !lo.del):
+				want = lo
+			case lcBeats(en, lo):
+				want = en
+			default:
+				want = lo
+			}
+			if !ln.eq(want) {
+				return fmt.Sprintf("FAIL wrong-winner old=%s entry=%s cutoff=%s new=%s want=%s", lo, en, a[3], ln, want)
+			}
+		}
 		return "ok " + ln.String()
 	}
 }
